@@ -71,7 +71,8 @@ type event struct {
 	key      int
 	val      int // value set / returned / passed to cleanup (0 none)
 	ok       bool
-	at       time.Time
+	at0      time.Time // when the operation was invoked
+	at       time.Time // when it returned (the cache stamps "used" somewhere in between)
 	keys     []int
 	caller   string // for cleanup: "timer", "count", "delete", "deleteall"
 	inv      int    // for cleanup: id of the pruning invocation (task key)
@@ -217,7 +218,7 @@ func runPlan(t *testing.T, p *cPlan) (out *runOut) {
 		if !p.NoFn {
 			opts.PruneFn = func(k, v int) error {
 				seq++
-				ev := event{seq: seq, kind: "cleanup", key: k, val: v, at: time.Now()}
+				ev := event{seq: seq, kind: "cleanup", key: k, val: v, at: time.Now(), at0: time.Now()}
 				if cur := simrt.Cur(); cur != nil {
 					ev.task = cur.Name
 					ev.inv = int(cur.Key)
@@ -262,7 +263,7 @@ func runPlan(t *testing.T, p *cPlan) (out *runOut) {
 					defer wg.Done()
 					for _, op := range ops {
 						seq++
-						ev := event{seq: seq, task: fmt.Sprintf("client%d", ci), kind: op.K, key: op.Key, at: time.Now()}
+						ev := event{seq: seq, task: fmt.Sprintf("client%d", ci), kind: op.K, key: op.Key, at: time.Now(), at0: time.Now()}
 						switch op.K {
 						case "set":
 							nextVal++
@@ -450,9 +451,10 @@ func judge(p *cPlan, log []event, present map[int]int, out *runOut) {
 		var last time.Time
 		found := false
 		for _, e := range log {
+			// (the entry was stamped no earlier than the invocation of the operation that used it)
 			if e.end != 0 && e.end < c.seq && e.key == c.key && ((e.kind == "set") || (e.kind == "get" && e.ok)) {
-				if e.at.After(last) {
-					last = e.at
+				if e.at0.After(last) {
+					last = e.at0
 				}
 				found = true
 			}
@@ -469,27 +471,38 @@ func judge(p *cPlan, log []event, present map[int]int, out *runOut) {
 			byInv[c.inv] = append(byInv[c.inv], c)
 		}
 	}
-	lastUse := func(c event) (time.Time, bool) {
-		var last time.Time
-		found := false
+	// The cache stamps an entry somewhere between the invocation and the return of the operation that uses it, and an
+	// operation that was invoked before the pass and had not returned may or may not have stamped it: the last use of a
+	// key is only known as an interval [lo, hi]. Order is demanded only where the intervals cannot overlap.
+	lastUse := func(c event) (lo, hi time.Time, found bool) {
 		for _, e := range log {
-			// a failed cleanup refreshes the entry (the cache treats it as just used)
-			if e.end != 0 && e.end < c.seq && e.key == c.key && ((e.kind == "set") || (e.kind == "get" && e.ok) || (e.kind == "cleanup" && !e.ok && e.caller != "explicit")) {
-				if e.at.After(last) {
-					last = e.at
-				}
+			if e.key != c.key || e.seq >= c.seq {
+				continue
+			}
+			uses := e.kind == "set" || (e.kind == "get" && (e.ok || e.end == 0 || e.end > c.seq)) || (e.kind == "cleanup" && !e.ok && e.caller != "explicit")
+			if !uses {
+				continue
+			}
+			if e.end != 0 && e.end < c.seq {
 				found = true
+				if e.at0.After(lo) {
+					lo = e.at0
+				}
+				if e.at.After(hi) {
+					hi = e.at
+				}
+			} else if c.at.After(hi) {
+				hi = c.at // in flight when this cleanup was attempted
 			}
 		}
-		return last, found
+		return lo, hi, found
 	}
 	for _, cs := range byInv {
 		for i := 1; i < len(cs); i++ {
-			a, oka := lastUse(cs[i-1])
-			b, okb := lastUse(cs[i])
-			if oka && okb && b.Before(a) {
-				// only certain when no use of either key overlaps the pass
-				viol("cache.lru-order", "count", fmt.Sprintf("count-triggered pruning attempted key %d (last used %s) before key %d (last used %s)", cs[i-1].key, a.Format("15:04:05.000000"), cs[i].key, b.Format("15:04:05.000000")))
+			aLo, _, oka := lastUse(cs[i-1])
+			_, bHi, okb := lastUse(cs[i])
+			if oka && okb && bHi.Before(aLo) {
+				viol("cache.lru-order", "count", fmt.Sprintf("count-triggered pruning attempted key %d (last used no earlier than %s) before key %d (last used no later than %s)", cs[i-1].key, aLo.Format("15:04:05.000000"), cs[i].key, bHi.Format("15:04:05.000000")))
 				return
 			}
 		}
